@@ -193,7 +193,10 @@ func init() {
 		}
 		spec.Fini = func() { c09pool.drop(); cleanupTmp() }
 		spec.Body = func(x *mc.X) {
-			switch x.Choose(5, "family") {
+			switch x.Choose(6, "family") {
+			case 5:
+				c06stoppedWindow(x)
+				return
 			case 4:
 				c06xConcurrent(x)
 				return
